@@ -51,7 +51,7 @@ na = [{"property_id": p["id"], "reason": NA_REASON.get(p["id"], "check under con
       for p in props if p["id"] not in CLAIMS]
 m = {
     "version": 1,
-    "setup_cmd": "cd /verif/engine && GOFLAGS=-mod=mod GOPROXY=off GOSUMDB=off GOTOOLCHAIN=local go build -o /verif/bin/symx ./cmd/symx",
+    "setup_cmd": "cd /verif/engine && GOFLAGS=-mod=mod GOPROXY=off GOSUMDB=off GOTOOLCHAIN=local go build -o /verif/bin/symx ./cmd/symx && GOFLAGS=-mod=mod GOPROXY=off GOSUMDB=off GOTOOLCHAIN=local go build -o /verif/bin/grammardump ./cmd/grammardump",
     "hooks": {"guard": "verif",
               "enable": "harness files under /verif/harness carry //go:build verif and are injected with packages.Config.Overlay (symbolic run) and go test -overlay -tags verif (native replay); no hook commit in /repo",
               "baseline_off_cmd": "cd /repo && go test -vet=off -count=1 -json ./...", "source_commits": [], "add_only": True},
